@@ -60,7 +60,9 @@ func writePhase(x *explore.Ctx, cfg WConfig, prog int, tier string, mask *MaskRe
 	}
 	levels := levelsOf(tier)
 	var n int
-	if cfg.SizeIdx > 0 {
+	if cfg.SizeAbs > 0 {
+		n = cfg.SizeAbs
+	} else if cfg.SizeIdx > 0 {
 		// the size dimension is spread over scenarios (finer work units for the worker pool)
 		n = e.Sizes[(cfg.SizeIdx-1)%len(e.Sizes)]
 		if cfg.SizeIdx-1 >= len(e.Sizes) {
@@ -194,6 +196,29 @@ func wScenarios(id, tier string, body func(x *explore.Ctx, cfg WConfig, prog int
 						scs = append(scs, &explore.Scenario{
 							Name:  fmt.Sprintf("%s/writer=%s/deflate=%v/B=%d/prog=%d/size#%d", id, roleName(server), comp, b, prog, si),
 							Bound: bd,
+							Body:  func(x *explore.Ctx) { body(x, cfg, prog, tier) },
+						})
+					}
+				}
+			}
+		}
+	}
+	if tier == "quick" {
+		// messages larger than 64 KiB (64-bit length form; with compression the only sizes at which the
+		// compressor emits data during Write rather than at Close) are thorough-tier sizes of S(B);
+		// the quick tier takes one such size with the streaming programs at deviation bound 1
+		for _, server := range []bool{true, false} {
+			for _, comp := range []bool{true, false} {
+				for _, b := range []int{125, 0} {
+					for _, prog := range []int{PNextWriterAll, PSplitWrite, PReadFrom, PJSON} {
+						if !comp && prog != PNextWriterAll {
+							continue
+						}
+						cfg := WConfig{Server: server, B: b, Compress: comp, SizeAbs: 65537}
+						prog := prog
+						scs = append(scs, &explore.Scenario{
+							Name:  fmt.Sprintf("%s/big/writer=%s/deflate=%v/B=%d/prog=%d/size=65537", id, roleName(server), comp, b, prog),
+							Bound: 1,
 							Body:  func(x *explore.Ctx) { body(x, cfg, prog, tier) },
 						})
 					}
